@@ -531,6 +531,29 @@ func (env *Env) evalSel(n ESel) Val {
 			limitf("contract does not bind: %s.%s", id.Name, n.Name)
 		}
 	}
+	// abstract field of a library object embedded BY VALUE in a heap struct (s.handlers.keys where handlers is a
+	// sync.Map field): the object is identified by the address of the field, not by the struct value
+	if inner, ok := n.X.(ESel); ok {
+		if _, isPkg := inner.X.(EIdent); !isPkg || func() bool { _, isVal := env.lookupIdent(inner.X.(EIdent).Name); return isVal }() {
+			outer := env.eval(inner.X)
+			if outer.K == kTerm {
+				if pt, ok := outer.Typ.Underlying().(*types.Pointer); ok {
+					if st, ok := pt.Elem().Underlying().(*types.Struct); ok {
+						if i, path, ok := findField(st, inner.Name); ok && len(path) == 1 {
+							ft := st.Field(i).Type()
+							if _, isPtr := ft.Underlying().(*types.Pointer); !isPtr {
+								if h, srt, aft, ok := e.absFieldOf(ft, n.Name); ok {
+									p := &Ptr{Kind: pField, Ref: outer.T, Root: pt.Elem(), Path: []int{i}}
+									ref := e.asTerm(env.st, ptrVal(p, types.NewPointer(ft)))
+									return term(fmt.Sprintf("(select %s %s)", e.heapGet(env.st, h, srt), ref), aft)
+								}
+							}
+						}
+					}
+				}
+			}
+		}
+	}
 	base := env.eval(n.X)
 	return env.selectField(base, n.Name)
 }
@@ -936,6 +959,12 @@ func (env *Env) evalCall(n ECall) Val {
 	// conversions
 	if t := e.P.tryResolveType(id.Name, env.pkg, env.fnForTypes()); t != nil && len(n.Args) == 1 {
 		v := env.eval(n.Args[0])
+		if _, toIface := t.Underlying().(*types.Interface); toIface && v.Typ != nil {
+			if _, fromIface := v.Typ.Underlying().(*types.Interface); !fromIface && v.K != kConst {
+				// any(x): box a concrete value exactly as the MakeInterface instruction does
+				return e.makeInterface(env.st, v, v.Typ, t)
+			}
+		}
 		if v.K == kConst {
 			return env.coerceTo(v, t)
 		}
